@@ -218,6 +218,39 @@ Definition mpf_set_2dl_fixed (prec : Z) (d : dbl) (l : Z) : res mpf :=
   | Ok f => if 0 <=? l then Ok (mpf_mul_2exp f l) else Ok (mpf_div_2exp f ((- (l mod 2 ^ 64)) mod 2 ^ 64))
   end.
 
+(* ---------------------------------------------------------------- link.c: the complex layer (component by component, real part first)
+     mpc_get_cdpe: mpf_get_rdpe (Re); mpf_get_rdpe (Im);     mpc_set_cdpe: mpf_set_rdpe (Re); mpf_set_rdpe (Im);
+     mpc_get_cplx: mpf_get_d (Re), mpf_get_d (Im);           mpc_set_cplx: mpf_set_d (Re); mpf_set_d (Im) *)
+Definition mpc := (mpf * mpf)%type.
+
+Definition mpc_get_cdpe (c : mpc) : res ((rdpe * rdpe) * mpc * list Z) :=
+  match mpf_get_rdpe (fst c) with
+  | UB u => UB u
+  | Ok (r1, f1, w1) =>
+    match mpf_get_rdpe (snd c) with
+    | UB u => UB u
+    | Ok (r2, f2, w2) => Ok ((r1, r2), (f1, f2), w1 ++ w2)
+    end
+  end.
+
+Definition mpc_set_cdpe (prec : Z) (c : rdpe * rdpe) : res mpc :=
+  match mpf_set_rdpe prec (fst c) with
+  | UB u => UB u
+  | Ok f1 => match mpf_set_rdpe prec (snd c) with UB u => UB u | Ok f2 => Ok (f1, f2) end
+  end.
+
+Definition mpc_get_cplx (c : mpc) : res (dbl * dbl) :=
+  match mpf_get_d (fst c) with
+  | UB u => UB u
+  | Ok d1 => match mpf_get_d (snd c) with UB u => UB u | Ok d2 => Ok (d1, d2) end
+  end.
+
+Definition mpc_set_cplx (prec : Z) (d : dbl * dbl) : res mpc :=
+  match mpf_set_d prec (fst d) with
+  | UB u => UB u
+  | Ok f1 => match mpf_set_d prec (snd d) with UB u => UB u | Ok f2 => Ok (f1, f2) end
+  end.
+
 (* ---------------------------------------------------------------- IEEE-754 binary64 encodings (for the differential driver) *)
 Definition dbl_of_bits (b : Z) : dbl :=
   let s := 2 ^ 63 <=? b in
